@@ -3,7 +3,8 @@
    over the reals, so `interp3 E (inj3 t) = Some o` in C01_reified_certificate3 has a witness. *)
 From Coq Require Import Reals Lra Lia List Bool ZArith NArith QArith Qreals Psatz.
 From Sdfx Require Import Num.Ops Num.RInst Num.QInst Geo.Vec Geo.Box Geo.BoxR Geo.NormR Geo.Mat
-  Sdf.Union2 Sdf.Shape Sdf.ShapeR Sdf.EncloseR Sdf.EncloseAll Sdf.Poly Sdf.Reify Sdf.ReifyR Sdf.ReifyCheck.
+  Sdf.Union2 Sdf.Shape Sdf.ShapeR Sdf.EncloseR Sdf.EncloseAll Sdf.Poly Sdf.Reify Sdf.ReifyR Sdf.ReifyCheck
+  Sdf.Prim2X Sdf.Prim2XR.
 From Sdfx Require Sdf.Screw Sdf.ScrewR.
 Import ListNotations.
 Local Open Scope R_scope.
@@ -113,6 +114,20 @@ Proof.
   split; [apply qlt0_sound, H1 | split; [apply qle0_sound, H2|]]. rewrite <- q2x_sound. apply qleb_sound, H3.
 Qed.
 
+(* ArcSpiral2D rejects a = 0 and start = end; the other primitives of Sdf/Prim2X.v accept what prim2_wfb accepts *)
+Definition prim2_buildsb (p : Prim2 QOps) : bool :=
+  match p with
+  | PArcSpiral a _ s e _ => negb (qis0 a) && negb (Qeq_bool s e)
+  | _ => true
+  end.
+Lemma prim2_buildsb_sound p : prim2_buildsb p = true -> prim2_builds (map_prim2 (A := QOps) (B := ROps) Q2R p).
+Proof.
+  destruct p; cbn [prim2_buildsb map_prim2 prim2_builds]; intros H; try exact I.
+  apply andb_true_iff in H. destruct H as [Ha Hs]. apply negb_true_iff in Ha, Hs. split.
+  - apply Q2R_nonzero, Ha.
+  - intros E. apply eqR_Qeq in E. apply Qeq_bool_iff in E. congruence.
+Qed.
+
 Fixpoint buildsb2 (s : QS2) : bool :=
   match s with
   | ROpaque2 _ _ => true
@@ -127,6 +142,8 @@ Fixpoint buildsb2 (s : QS2) : bool :=
   | RRotateCopy2 s n => buildsb2 s && (0 <? n)%Z
   | RUnion2 _ l => nonnil l && forallb buildsb2 l
   | RSlice2 s _ _ => buildsb3 s
+  | RPrim2 p => prim2_wfb p && prim2_buildsb p
+  | RRack2 s _ _ _ => buildsb2 s
   end
 with buildsb3 (s : QS3) : bool :=
   match s with
@@ -202,6 +219,9 @@ Section Builds.
         first [rewrite Hos | change (@rmap2 QOps ROps Q2R) with inj2 in Hos; rewrite Hos]. cbn [obind].
         apply union2_builds. destruct l; [discriminate|]. destruct os; [cbn in Hl; discriminate | discriminate].
       + cross3 builds3 s H. unfold k_slice2. done_some.
+      + apply andb_true_iff in H. destruct H as [Hw Hb].
+        apply prim2_builds_some; [apply prim2_wfb_sound, Hw | apply prim2_buildsb_sound, Hb].
+      + child builds2 s H. unfold k_rack2. done_some.
     - destruct s; cbn [buildsb3 inj3 rmap3 interp3]; intros H.
       + done_some.
       + apply sphere_builds, qlt0_sound, H.
